@@ -101,11 +101,12 @@ def run_items(items, job):
         sel_e, sel_d = (["md002", "md006"], ["md041"]) if idx % 3 == 0 else ([], [])
         sel_args = (["-e", ",".join(sel_e)] if sel_e else []) + (["-d", ",".join(sel_d)] if sel_d else [])
         # every fourth document runs every entry point under the minimal return-code scheme
-        minimal = idx % 4 == 1
+        grp_d = str(key).startswith(("Z10:", "Z11:", "Z12:")) or (isinstance(it, dict) and str(it.get("case", "")).startswith(("Z10:", "Z11:", "Z12:")))
+        minimal = grp_d and idx % 4 == 1  # (group D documents only: the baselines of the earlier zones predate this)
         sch_args = ["--return-code-scheme", "minimal"] if minimal else []
         sel_args = sch_args + sel_args
         # documents with the logger's substitution character always get the verbose diagnostic variants
-        verbose = idx % 40 == 0 or "$" in doc
+        verbose = idx % 40 == 0 or (grp_d and "$" in doc)
 
         def api(level="critical"):
             a = PyMarkdownApi()
